@@ -58,6 +58,28 @@ theorem C20_inside (w : World) (extras : List Slot) (x : Exit) (wi : World)
       · rw [e, h1] at hm; simp [isMockO, Obj.isMock] at hm
       · rw [h1] at hg1; cases hg1; exact hg2
 
+/-- **Targets are recognised by the object they hold, never by their name**: if some standard or extra target holds an
+    object that is not one of the two snowflake functions (whatever the attribute is called — also `connect` or
+    `write_pandas`), the body never runs and that attribute is afterwards the very object it was (it is never replaced by a
+    fake).  Conversely `C20_inside` gives every target holding a real snowflake function — under any attribute name, e.g.
+    `from snowflake.connector import connect as sf_connect` — this instance's fake of that function. -/
+theorem C20_non_snowflake_never_faked (w : World) (extras : List Slot) (x : Exit) (t : Slot) (k : Nat)
+    (ht : t ∈ targetsOf extras) (h : get w.env t = some (.other k)) :
+    (patchRun fixed w extras x).inside = none ∧ get (patchRun fixed w extras x).after.env t = some (.other k) := by
+  refine ⟨?_, (C20_restore w extras x).1 t _ h⟩
+  cases hins : (patchRun fixed w extras x).inside with
+  | none => rfl
+  | some wi =>
+    exfalso
+    rcases patchRun_fixed_summary w extras x with ⟨_, h'⟩ | ⟨_, base, st, he, _, _, _, _, hi⟩
+    · rw [h'] at hins; cases hins
+    · obtain ⟨_, er, em⟩ := hi wi hins
+      have hm := em t ht
+      have hb := he.1 t _ h
+      rcases er t with e | ⟨f, hf, _⟩
+      · rw [e, hb] at hm; simp [isMockO, Obj.isMock] at hm
+      · rw [hb] at hf; cases hf
+
 /-- **patch() can be entered again**: whatever the target list and however the block was left (including a failed
     set-up), a later patch() is not refused. -/
 theorem C20_reenter (w : World) (hw : WF w) (extras extras' : List Slot) (x x' : Exit)
